@@ -1,7 +1,152 @@
-(** C15 — property theorems only (stub while the proofs are being written). *)
-From Coq Require Import List ZArith NArith Bool.
-From Kardia Require Import C15.Crc32c C15.Model Generated.C15Facts.
+(** C15 — the consensus WAL returns exactly what was written and detects every corruption.
+    Property theorems only; each is closed by [exact] of a lemma of Proofs*.v and followed by
+    [Print Assumptions].
 
-Theorem C15_stub : True.
-Proof. exact I. Qed.
-Print Assumptions C15_stub.
+    Conventions: bytes are [N] below 256 ([wf_bytes]); the CRC is the real bit-by-bit CRC-32C
+    ([Crc32c.crc32c]); the payload codec (protobuf marshal/unmarshal of TimedWALMessage) is
+    abstract: [ser]/[deser]/[end_height] are universally quantified.
+      [good p m]   = [deser p = Some m], [p] is non-empty, well formed and within maxMsgSizeBytes
+      [canon p m]  = [good p m] and [ser m = p] (re-marshalling gives the payload back)
+      [collision p] = a different payload with the same CRC that also unmarshals *)
+From Coq Require Import List ZArith NArith Bool Sorted.
+From Kardia Require Import Base.ListX C15.Crc32c C15.ProofsCrc C15.Model C15.ProofsLog C15.ProofsGroup C15.ProofsTop
+  Generated.C15Facts.
+Import ListNotations.
+
+(** Whatever sequence of Write / WriteSync / head-size ticks / flushes / rotations is run on an
+    empty group, after a final flush a GroupReader from the first file returns exactly the
+    accepted messages, in order, then end-of-log (file rotation is invisible). *)
+Theorem C15_roundtrip :
+  forall (msg : Type) (deser : bytes -> option msg) (min : nat) (limit : Z) (ops : list wal_op)
+         (ms : list msg) (cont : bool),
+    Forall2 (good msg deser) (written ops) ms ->
+    let g := final_group min limit ops in
+    read_log crc32c msg deser cont RGroup (group_stream g (g_min g)) = map ObMsg ms ++ [ObEof].
+Proof. exact top_roundtrip. Qed.
+Print Assumptions C15_roundtrip.
+
+(** the same on the bytes, for both readers (os.File and GroupReader) *)
+Theorem C15_roundtrip_bytes :
+  forall (msg : Type) (deser : bytes -> option msg) (cont : bool) (k : rkind) (ps : list bytes) (ms : list msg),
+    Forall2 (good msg deser) ps ms ->
+    read_log crc32c msg deser cont k (frames crc32c ps) = map ObMsg ms ++ [ObEof].
+Proof. exact top_roundtrip_bytes. Qed.
+Print Assumptions C15_roundtrip_bytes.
+
+(** rotation happens only between records: every file of the group is a sequence of whole frames,
+    and together they are exactly what was accepted *)
+Theorem C15_rotation_between_records :
+  forall (min : nat) (limit : Z) (ops : list wal_op),
+    exists chunks, disk_files (final_group min limit ops) = map (frames crc32c) chunks /\
+                   concat chunks = written ops.
+Proof. exact top_rotation. Qed.
+Print Assumptions C15_rotation_between_records.
+
+(** For ANY bytes: Decode returns a message only for a CRC-consistent frame at the head of the
+    stream, with a length within the limit.  [z] zero bytes may have been supplied by the os.File
+    reader's short last read, only when the file ends inside that frame. *)
+Theorem C15_decode_sound :
+  forall (msg : Type) (deser : bytes -> option msg) (k : rkind) (bs : bytes) (m : msg) (rest : bytes),
+    wf_bytes bs -> decode crc32c msg deser k bs = OMsg m rest ->
+    exists p z, deser p = Some m /\ (lenN p <= max_msg_size_bytes)%N /\ wf_bytes p /\
+                bs ++ repeat 0%N z = frame crc32c p ++ rest /\
+                (z = 0 \/ (k = RFile /\ rest = [] /\ z < length (frame crc32c p))).
+Proof. exact top_decode_sound. Qed.
+Print Assumptions C15_decode_sound.
+
+(** the data buffer Decode allocates never exceeds maxMsgSizeBytes, for any input *)
+Theorem C15_alloc_bound :
+  forall (msg : Type) (deser : bytes -> option msg) (k : rkind) (bs : bytes),
+    (decode_alloc crc32c msg deser k bs <= max_msg_size_bytes)%N.
+Proof. exact top_alloc_bound. Qed.
+Print Assumptions C15_alloc_bound.
+
+(** a declared length above the limit is refused as such, before anything is allocated *)
+Theorem C15_too_big_refused :
+  forall (msg : Type) (deser : bytes -> option msg) (k : rkind) (c l rest : bytes),
+    length c = 4 -> length l = 4 -> (max_msg_size_bytes < of_be32 l)%N ->
+    decode_full crc32c msg deser k (c ++ l ++ rest) = (OCorrupt CTooBig rest, 0%N).
+Proof. exact top_too_big. Qed.
+Print Assumptions C15_too_big_refused.
+
+(** Every proper prefix of a valid log reads as a prefix of the written messages followed by
+    end-of-log or a corruption error — never a different message; the only escape is an explicit
+    CRC collision on a payload that unmarshals, and only through the zero-filling os.File reader. *)
+Theorem C15_truncation :
+  forall (msg : Type) (ser : msg -> bytes) (deser : bytes -> option msg) (k : rkind)
+         (ps : list bytes) (ms : list msg) (n : nat),
+    Forall2 (good msg deser) ps ms -> n < length (frames crc32c ps) ->
+    (exists j tail, read_log crc32c msg deser false k (firstn n (frames crc32c ps)) = map ObMsg (firstn j ms) ++ tail /\
+                    (tail = [ObEof] \/ exists c, tail = [ObCorrupt c])) \/
+    (k = RFile /\ exists p, In p ps /\ collision crc32c msg deser p).
+Proof. exact top_truncation. Qed.
+Print Assumptions C15_truncation.
+
+(** Changing any one byte (so: flipping any one bit) of the CRC field or of the payload of a frame
+    is always reported as a checksum error, by both readers, wherever the frame is in the log. *)
+Theorem C15_bitflip_detected :
+  forall (msg : Type) (deser : bytes -> option msg) (k : rkind) (p rest : bytes) (i : nat) (b' : N),
+    wf_bytes p -> p <> [] -> (lenN p <= max_msg_size_bytes)%N ->
+    i < length (frame crc32c p) -> ~ (4 <= i < 8) -> (b' < 256)%N -> nth i (frame crc32c p) 0%N <> b' ->
+    decode crc32c msg deser k (set_nth i b' (frame crc32c p) ++ rest) = OCorrupt CCrc rest.
+Proof. exact top_bitflip. Qed.
+Print Assumptions C15_bitflip_detected.
+
+(** the CRC update is GF(2)-linear and injective on 32-bit states (what the theorem above rests on) *)
+Theorem C15_crc_step_linear : forall a b, crc_bit (N.lxor a b) = N.lxor (crc_bit a) (crc_bit b).
+Proof. exact crc_bit_linear. Qed.
+Print Assumptions C15_crc_step_linear.
+
+Theorem C15_crc_step_injective : forall a b, b32 a -> b32 b -> crc_bit a = crc_bit b -> a = b.
+Proof. exact crc_bit_inj. Qed.
+Print Assumptions C15_crc_step_injective.
+
+(** A damaged length field (any value): if Decode still returns a message, then the stored CRC of
+    the original payload equals the CRC of a payload of a different length that unmarshals — an
+    explicit collision (the 2^-32 residual; otherwise the result is Eof/Corrupt). *)
+Theorem C15_lenflip_residual :
+  forall (msg : Type) (ser : msg -> bytes) (deser : bytes -> option msg) (k : rkind)
+         (l' p rest : bytes) (m' : msg) (r' : bytes),
+    length l' = 4 -> wf_bytes l' -> wf_bytes p -> wf_bytes rest -> (lenN p < 4294967296)%N ->
+    l' <> be32 (lenN p) ->
+    decode crc32c msg deser k (be32 (crc32c p) ++ l' ++ p ++ rest) = OMsg m' r' ->
+    exists p', deser p' = Some m' /\ crc32c p' = crc32c p /\ lenN p' <> lenN p /\ l' = be32 (lenN p').
+Proof. exact top_lenflip. Qed.
+Print Assumptions C15_lenflip_residual.
+
+(** SearchForEndHeight on the group produced by any operation sequence (valid messages, strictly
+    increasing end-height markers): found iff the marker was written, and the returned reader is
+    positioned exactly after the marker's frame (its remaining bytes are the frames written after it). *)
+Theorem C15_search_iff :
+  forall (msg : Type) (deser : bytes -> option msg) (end_height : msg -> option Z)
+         (min : nat) (limit : Z) (ops : list wal_op) (h : Z) (ign : bool),
+    Forall (goodp msg deser) (written ops) ->
+    StronglySorted Z.lt (marks msg deser end_height (written ops)) ->
+    let g := final_group min limit ops in
+    (forall pre p0 post, written ops = pre ++ p0 :: post -> mark msg deser end_height p0 = Some h ->
+       search crc32c msg deser end_height g h ign = SFound (frames crc32c post)) /\
+    (~ In h (marks msg deser end_height (written ops)) ->
+       search crc32c msg deser end_height g h ign = SNotFound).
+Proof. exact top_search. Qed.
+Print Assumptions C15_search_iff.
+
+(** repairWalFile keeps exactly the frames of the longest decodable prefix: whole canonical frames
+    followed by anything whose first Decode is not a message are repaired to those frames. *)
+Theorem C15_repair_prefix :
+  forall (msg : Type) (ser : msg -> bytes) (deser : bytes -> option msg)
+         (ps : list bytes) (ms : list msg) (tail : bytes),
+    Forall2 (canon msg ser deser) ps ms ->
+    (forall m r, decode crc32c msg deser RFile tail <> OMsg m r) ->
+    repair crc32c msg ser deser (frames crc32c ps ++ tail) = (frames crc32c ps, true).
+Proof. exact top_repair. Qed.
+Print Assumptions C15_repair_prefix.
+
+(** the zero-fill behaviour of the os.File reader (used by repairWalFile) is real: a frame cut
+    inside trailing zero bytes is completed and decoded, to the message that was written; the
+    GroupReader reports the same bytes as corrupt *)
+Theorem C15_zero_fill_quirk :
+  let fr := frame crc32c [5%N; 0%N] in
+  decode crc32c Z toy2_deser RFile (firstn 9 fr) = OMsg 5%Z [] /\
+  (exists c r, decode crc32c Z toy2_deser RGroup (firstn 9 fr) = OCorrupt c r).
+Proof. exact zero_fill_quirk. Qed.
+Print Assumptions C15_zero_fill_quirk.
